@@ -49,6 +49,7 @@ typedef struct dtrial {
 	_Atomic uint64_t last_delivered;
 	_Atomic uint64_t issued[17];       /* REPLACE: per-thread highest sequence number issued */
 	_Atomic int cancel_ran;
+	_Atomic uint64_t via_block[3]; _Atomic int registered; _Atomic uint64_t replacements;
 	uint32_t body_ns; int self_merge_pct;
 	uint64_t salt;
 	int nmergers, per;
@@ -144,6 +145,23 @@ static void *d_controller(void *arg)
 	return NULL;
 }
 
+/* replaces the event handler of the active source with an equivalent block, again and again:
+ * "the new handler takes effect between two invocations"; every delivered value is still accounted
+ * once, the two versions never run at the same time, and the replaced blocks are disposed of */
+static void *d_replacer(void *arg)
+{
+	dtrial_t *t = arg;
+	int v = 1;
+	while (!atomic_load(&t->stop_ctl)) {
+		int ver = v;
+		dispatch_source_set_event_handler(t->ds, ^{ atomic_fetch_add(&t->via_block[ver], 1); d_handler(t); });
+		atomic_fetch_add(&t->replacements, 1);
+		v = 3 - v;
+		struct timespec ts = { 0, 150000 }; nanosleep(&ts, NULL);
+	}
+	return NULL;
+}
+
 static void run_data_trial(int idx)
 {
 	dtrial_t *t = calloc(1, sizeof(*t));
@@ -161,8 +179,16 @@ static void run_data_trial(int idx)
 	t->ds = dispatch_source_create(types[t->type], 0, 0, tq);
 	if (!t->ds) vf_fail("dispatch_source_create(%s) failed", d_names[t->type]);
 	dispatch_set_context(t->ds, t);
-	dispatch_source_set_event_handler_f(t->ds, d_handler);
-	dispatch_source_set_cancel_handler_f(t->ds, d_cancel);
+	/* function and block forms; the block form captures the trial (Block_copy / dispose paths, ASan) */
+	int hform = (int)vf_rnd_n(&r, 3);       /* 0 functions, 1 blocks, 2 blocks + the event handler is replaced while the source is in use */
+	if (hform == 0) {
+		dispatch_source_set_event_handler_f(t->ds, d_handler);
+		dispatch_source_set_cancel_handler_f(t->ds, d_cancel);
+	} else {
+		dispatch_source_set_event_handler(t->ds, ^{ atomic_fetch_add(&t->via_block[0], 1); d_handler(t); });
+		dispatch_source_set_cancel_handler(t->ds, ^{ d_cancel(t); });
+		dispatch_source_set_registration_handler(t->ds, ^{ atomic_fetch_add(&t->registered, 1); });
+	}
 	t->nmergers = (int)vf_rnd_range(&r, 1, 16);
 	t->body_ns = vf_rnd_n(&r, 3) * 40000;
 	t->self_merge_pct = vf_rnd_n(&r, 2) ? 10 : 0;
@@ -182,6 +208,8 @@ static void run_data_trial(int idx)
 		pthread_create(&th[i].th, NULL, i < t->nmergers ? d_merger : d_controller, &th[i]);
 	}
 	pthread_barrier_wait(&t->bar);
+	pthread_t rep_th; int have_rep = 0;
+	if (hform == 2) { have_rep = !pthread_create(&rep_th, NULL, d_replacer, t); }
 	uint64_t rounds_ok = 0;
 	if (t->type == D_OR) {
 		for (int round = 1; round <= t->per; round++) {
@@ -203,6 +231,7 @@ static void run_data_trial(int idx)
 	for (int i = 0; i < t->nmergers; i++) pthread_join(th[i].th, NULL);
 	atomic_store(&t->stop_ctl, 1);
 	if (with_ctl) pthread_join(th[t->nmergers].th, NULL);
+	if (have_rep) pthread_join(rep_th, NULL);
 	vf_watch_end();
 	/* quiescence: everything merged must be delivered (nothing is cancelled yet) */
 	if (t->type == D_ADD) {
@@ -238,6 +267,9 @@ static void run_data_trial(int idx)
 	vf_count("data_handler_invocations", inv);
 	vf_count(d_names[t->type], 1);
 	vf_count("or_rounds_checked", rounds_ok);
+	vf_count("event_handler_replacements_while_active", atomic_load(&t->replacements));
+	vf_count("block_form_handler_invocations", atomic_load(&t->via_block[0]) + atomic_load(&t->via_block[1]) + atomic_load(&t->via_block[2]));
+	if (hform && atomic_load(&t->registered) != 1) vf_violation("C16:registration-handler-count", "registration handler (block form) ran %d times", atomic_load(&t->registered));
 	vf_count("items", mg);
 	vf_emit("trial", "\"n\":1,\"sig\":\"data-%s-%d-%d-%d-%d\",\"nontrivial\":%s,\"sample\":{\"trial\":%d,\"type\":\"%s\",\"mergers\":%d,\"merges\":%llu,\"handler_invocations\":%llu,\"suspend_resume_controller\":%d,\"self_merges\":%d,\"perturb\":\"%s\"}",
 			d_names[t->type], serial, prof.kind, vf_log2_bucket(mg / (inv ? inv : 1)), with_ctl, (inv > 0 && inv < mg) ? "true" : "false",
@@ -448,15 +480,23 @@ static void run_cancel_case(vf_rng_t *r, const char *desc, int forced_kind)
 	}
 	if (!c->ds) vf_fail("dispatch_source_create(%s) failed", k_names[c->kind]);
 	dispatch_set_context(c->ds, c);
-	dispatch_source_set_event_handler_f(c->ds, c_handler);
-	if (c->point != P_CANCEL_AND_WAIT) dispatch_source_set_cancel_handler_f(c->ds, c_cancel_handler);
+	int blocks = (int)vf_rnd_n(r, 2);     /* block-form handlers capture the case (Block_copy, disposal at cancellation) */
+	if (blocks) {
+		dispatch_source_set_event_handler(c->ds, ^{ c_handler(c); });
+		if (c->point != P_CANCEL_AND_WAIT) dispatch_source_set_cancel_handler(c->ds, ^{ c_cancel_handler(c); });
+		vf_count("cancel_cases_with_block_handlers", 1);
+	} else {
+		dispatch_source_set_event_handler_f(c->ds, c_handler);
+		if (c->point != P_CANCEL_AND_WAIT) dispatch_source_set_cancel_handler_f(c->ds, c_cancel_handler);
+	}
 	feeder_t f; f.c = c; vf_rng_seed(&f.rng, vf_rnd(r), 1);
 	pthread_t fth; int have_feeder = 0;
 	char ctx[96]; snprintf(ctx, sizeof(ctx), "cancel:%s:%s", k_names[c->kind], p_names[c->point]);
 	vf_watch_begin(ctx, 0);
 
 	if (c->point == P_FROM_REGISTRATION_HANDLER) {
-		dispatch_source_set_registration_handler_f(c->ds, c_registration_handler);
+		if (blocks) dispatch_source_set_registration_handler(c->ds, ^{ c_registration_handler(c); });
+		else dispatch_source_set_registration_handler_f(c->ds, c_registration_handler);
 		/* make an event pending before the source is installed */
 		switch (c->kind) {
 		case K_DATA: dispatch_source_merge_data(c->ds, 1); break;
